@@ -13,7 +13,7 @@ fn bounds(tier: &str) -> (usize, Option<usize>) {
 
 pub fn run(tier: &str) -> i32 {
     let rep = Report::new("C09", tier, "model_checking");
-    rep.set_rule("every enum of 1-3 variants (quick 2) whose arms are drawn from {literal(k), pattern(a..=b)+into, pattern(a|b)+into, pattern(_)+into, the README catch-all `#[pattern(_)] #[into({f0})] Other(#[from(@)] prim)`, ghost variant} with k, a, b over the boundary points {0,1,2,127,128,254,255} (u8) / {-128,-1,0,1,127} (i8) / a closed string set, distinct AND overlapping assignments, every variant order, counterparts u8, i8 and a &'static str alias, kinds {map_owned, map (owned + by-ref), from_owned only}, infallible (default case -> marker variant) and fallible (default case -> Err): compiled through the real derive and executed over the WHOLE primitive domain (all 256 values) - From must equal the first-match-in-declaration-order model, Into must yield the literal / into value, and variant -> primitive -> variant is the identity where the model says so. states = distinct test modules");
+    rep.set_rule("every enum of 1-3 variants (quick 2) whose arms are drawn from {literal(k), pattern(a..=b)+into, pattern(a|b)+into, guarded binding pattern(n if n % 2 == 0)+into, pattern(_)+into, the README catch-all `#[pattern(_)] #[into({f0})] Other(#[from(@)] prim)`, ghost variant} with k, a, b over the boundary points {0,1,2,127,128,254,255} (u8) / {-128,-1,0,1,127} (i8) / a closed string set, distinct AND overlapping assignments, every variant order, counterparts u8, i8 and a &'static str alias, kinds {map_owned, map (owned + by-ref), from_owned only}, infallible (default case -> marker variant) and fallible (default case -> Err): compiled through the real derive and executed over the WHOLE primitive domain (all 256 values) - From must equal the first-match-in-declaration-order model, Into must yield the literal / into value, and variant -> primitive -> variant is the identity where the model says so. states = distinct test modules");
     rep.assume("overlapping arms produce rustc `unreachable pattern` warnings only; string counterpart uses the documented StaticStr alias");
     let caps = Caps::from_env(if tier == "quick" { 200.0 } else { 1500.0 });
     let (mv, b) = bounds(tier);
